@@ -100,13 +100,26 @@ def cat_case(draw, tier):
     node2 = 0 if k == 0 else draw(st.integers(0, n2 - 1))
     translate = draw(st.booleans())
     coincide = draw(st.booleans())
+    near = False
     if not translate:
         if coincide:
             for c in "xyz":
                 t2[c][node2] = t1[c][node1]
+        elif draw(st.booleans()):
+            # a near miss: the second junction sits an eighth or a quarter of a unit beside the first one
+            for c in "xyz":
+                t2[c][node2] = t1[c][node1]
+            t2[draw(st.sampled_from("xyz"))][node2] += draw(st.sampled_from([0.125, -0.125, 0.25]))
+            near = True
         elif all(t2[c][node2] == t1[c][node1] for c in "xyz"):
             t2["x"][node2] = t1["x"][node1] + 0.125
-    return {"t1": t1, "t2": t2, "node1": node1, "node2": node2, "translate": translate,
+    far = draw(st.sampled_from([None, None, [32768, -16384, 8192], [-30720, 30720, 1024], [4096, 0, -32768]]))
+    if far:
+        # both neurons sit far from the origin (stack coordinates): multiples of 1/8 stay exact in float32 up to 2^16
+        for t in (t1, t2):
+            for c, o in zip("xyz", far):
+                t[c] = [v + o for v in t[c]]
+    return {"t1": t1, "t2": t2, "node1": node1, "node2": node2, "translate": translate, "far": bool(far), "near": near,
             "cols1": draw(st.sampled_from([["tag", "w"], ["tag"]])),
             "cols2": draw(st.sampled_from([["tag", "w"], ["tag"], ["tag", "w", "q"]]))}
 
@@ -144,6 +157,12 @@ def run_cat(case, ctx):
     ctx.cls("translate" if translate else "no-translate", "merged" if merged else "linked",
             "node2-is-root" if b == 0 else "node2-not-root", "node1-is-root" if a == 0 else "node1-not-root",
             "cols1:" + "+".join(case["cols1"]), "cols2:" + "+".join(case["cols2"]))
+    if case.get("far"):
+        ctx.cls("far-from-the-origin")
+    if case.get("near") and not merged:
+        ctx.cls("junctions-a-fraction-of-a-unit-apart")
+        if case.get("far"):
+            ctx.cls("near-miss-far-from-the-origin")
     ctx.nontrivial(n1 >= 3 and n2 >= 3 and a != 0 and b != 0)
 
     out = cat_tree(tree1, tree2, a, b, translate=translate)
@@ -265,7 +284,8 @@ SUBCHECKS = [
         required={"sort": 200, "nosort": 200, "permuted": 200, "new-root-is-old-root": 10}),
     Sub("cat", cat_case, run_cat, quick=1200, thorough=16000, shards_quick=4,
         required={"merged": 100, "linked": 100, "translate": 100, "no-translate": 100,
-                  "node2-not-root": 100, "cols2:tag": 50, "cols2:tag+w+q": 50}),
+                  "node2-not-root": 100, "cols2:tag": 50, "cols2:tag+w+q": 50, "far-from-the-origin": 200,
+                  "junctions-a-fraction-of-a-unit-apart": 60, "near-miss-far-from-the-origin": 20}),
     Sub("path", path_case, run_path, quick=600, thorough=3000, shards_quick=2,
         required={"path-len>=3": 50, "path-types-not-a-palindrome": 50}),
 ]
